@@ -846,6 +846,11 @@ func c13CheckA(c *core.Ctx, cases []c13ACase) []core.Outcome {
 				hi = mid
 			case c13LimitErr:
 				lo = mid + 1
+			case c13Panic:
+				_, _, d := c13FreshCall(cs, mid)
+				o.Fail = &core.Failure{Kind: "impl-violation", Key: "panic:" + c13PanicClass(d), Summary: fmt.Sprintf("panic (%s, limit %d, input %q): %s", cs.Call, mid, cs.Input, d), Expected: "a result or ErrBacktrackingStackLimit", Got: "PANIC " + d}
+				bad = true
+				lo = hi
 			default:
 				bad = true
 				lo = hi
@@ -904,15 +909,23 @@ func c13CheckA(c *core.Ctx, cases []c13ACase) []core.Outcome {
 		}
 		sort.Ints(ls)
 		for _, L := range ls {
-			k, capHW, _ := c13FreshCall(cs, L)
+			k, capHW, d := c13FreshCall(cs, L)
 			var ans string
 			switch k {
 			case c13OK:
 				ans = fmt.Sprintf("(ok %d)", capHW)
 			case c13LimitErr:
 				ans = fmt.Sprintf("(err %d)", capHW)
+			case c13Panic:
+				if o.Fail == nil {
+					o.Fail = &core.Failure{Kind: "impl-violation", Key: "panic:" + c13PanicClass(d), Summary: fmt.Sprintf("panic (%s, limit %d, input %q): %s", cs.Call, L, cs.Input, d), Expected: "a result or ErrBacktrackingStackLimit", Got: "PANIC " + d}
+				}
+				continue
 			default:
 				continue
+			}
+			if L >= 0 && capHW > L && o.Fail == nil {
+				o.Fail = &core.Failure{Kind: "impl-violation", Key: "cap-exceeds-limit", Summary: fmt.Sprintf("backtracking stack of %d slots allocated (%s, limit %d, input %q)", capHW, cs.Call, L, cs.Input), Expected: fmt.Sprintf("<= %d", L), Got: fmt.Sprint(capHW)}
 			}
 			probes = append(probes, probe{ci: ci, L: L, goAns: ans, allowZero: star == 0})
 			lines = append(lines, core.S("c13", "sim", fmt.Sprint(L), fmt.Sprint(tc), core.SInts(seq)))
